@@ -1,6 +1,7 @@
 package main
 
 import (
+	"os"
 	"sort"
 	"context"
 	"fmt"
@@ -50,6 +51,7 @@ func (a *simpleAction) Rollback(ctx context.Context, bac *tm.BusinessActionConte
 func (a *simpleAction) GetActionName() string { return a.name }
 
 func runC19(c *Ctx) {
+	runC19Waiting(c) // first: it needs the session registry in the state a fresh client leaves it in
 	rng := NewRng(c.Seed)
 	nHist := c.Budget(500, 30000)
 	for i := 0; i < nHist; i++ {
@@ -523,4 +525,87 @@ func runC19Route(c *Ctx) {
 			}
 		}
 	}
+}
+
+// ---- a request issued while no coordinator is connected waits for one to come back. Connections that went
+// away again before the client could use them appear in the registry meanwhile: the request must be written
+// to the first OPEN session, never to one of those.
+
+func runC19Waiting(c *Ctx) {
+	if !c.Want("wait-1") && !c.Want("wait-2") {
+		return
+	}
+	coord := Boot()
+	settle := func() {
+		// let the announcements on the open sessions finish: a session closed under them is released twice
+		// (by OnClose and by the failing announcement), which throws the session counter off
+		time.Sleep(100 * time.Millisecond)
+		for _, s := range coord.Sessions() {
+			if !s.IsClosed() {
+				s.CloseFromPeer()
+			}
+		}
+	}
+	settle()
+	for n := 1; n <= 2; n++ {
+		cid := fmt.Sprintf("wait-%d", n)
+		if !c.Want(cid) {
+			continue
+		}
+		open0, closed0, counter0 := sgetty.VerifSessionBook()
+		done := make(chan struct{})
+		go func() {
+			defer close(done)
+			time.Sleep(150 * time.Millisecond)
+			for k := 0; k < n; k++ {
+				// registered, and already gone when the waiting request looks at it
+				dead := &FakeSession{coord: coord, id: 7000 + n*10 + k, addr: coord.Addr, attrs: map[interface{}]interface{}{}}
+				dead.Close()
+				sgetty.VerifRegisterSilently(dead)
+				if os.Getenv("VERIF_DEBUG") != "" {
+					o, cl, cn := sgetty.VerifSessionBook()
+					fmt.Fprintln(os.Stderr, "DEBUG book after dead", o, cl, cn)
+				}
+			}
+			time.Sleep(250 * time.Millisecond)
+			if os.Getenv("VERIF_DEBUG") != "" {
+				o, cl, cn := sgetty.VerifSessionBook()
+				fmt.Fprintln(os.Stderr, "DEBUG book before C", o, cl, cn)
+			}
+			coord.OpenSession()
+		}()
+		var got getty.Session
+		crash := safeCall(func() {
+			got = sgetty.VerifSelect(message.RpcMessage{Body: message.GlobalBeginRequest{TransactionName: cid}})
+		})
+		<-done
+		if os.Getenv("VERIF_DEBUG") != "" {
+			o, cl, cn := sgetty.VerifSessionBook()
+			fmt.Fprintln(os.Stderr, "DEBUG book after", cid, o, cl, cn)
+		}
+		obs := "nil"
+		if got != nil {
+			obs = "open"
+			if got.IsClosed() {
+				obs = "closed"
+			}
+		}
+		c.Out.Case(cid, "C19", "skip", "skip")
+		switch {
+		case crash != "":
+			c.Out.Oracle(cid, false, "crash", crash)
+		case open0 != 0 || counter0 != 0:
+			c.Out.Oracle(cid, false, "setup", fmt.Sprintf("registry not empty before the case: open=%d closed=%d counter=%d", open0, closed0, counter0))
+		case obs == "closed":
+			c.Out.Oracle(cid, false, "closed_session_chosen", "the waiting request was handed a session that is closed, although an open one came back")
+		case obs == "nil":
+			c.Out.Oracle(cid, false, "no_session_although_one_came_back", "")
+		default:
+			c.Out.Oracle(cid, true, "", "")
+		}
+		c.Out.Tag(cid, "nontrivial=1")
+		c.Out.Count("waiting-request")
+		settle()
+	}
+	coord.OpenSession()
 }
